@@ -282,6 +282,25 @@ def rule_open_after_repair(cx):
                          fn, ", ".join(sorted({c.primary for c in before})) or "in CoreInner::new", r.primary))
 
 
+def rule_wal_open_floor(cx):
+    """The store's WAL writer is always opened with a floor at the manifest's log_number.  `Wal::open` picks the
+    highest segment present in the directory (0 when empty); if that is below manifest.log_number, acknowledged
+    commits are appended to a segment that the next recovery skips as `already flushed`."""
+    f = cx.f
+    who_calls(cx, ["Wal::open"], {"wal::recovery::repair_corrupted_wal_segment", "repair_corrupted_wal_segment"},
+              "floor-less Wal::open is confined to the repair's temporary directory", "who:Wal::open", minimum=1)
+    cs = f.callers_of("Wal::open_with_min_log_number")
+    cx.floor("store-level WAL opens (with floor)", len(cs), 1)
+    for c in cs:
+        b = c.body
+        o = origin_of_operand(b, c.args[1])
+        owner = f.fn_of(b).id
+        ok = o.from_call("LevelManifest::get_log_number") and not o.ops
+        cx.check(ok, "`%s`: the WAL is opened with floor = manifest.log_number" % owner, "wal-open-floor|%s" % owner, c.where(),
+                 "`%s` opens the store's WAL with a floor that is not the manifest's log_number: commits can be appended to a segment "
+                 "number the next recovery skips" % owner)
+
+
 def rule_append_after_validated_tail(cx):
     f = cx.f
     b = f.body("Wal::create_writer")
